@@ -10,6 +10,9 @@ CHECKS = {
  "C05": ("model_checking", "explicit-state BFS (stateright) over accumulator operation histories on the real Accumulator, Vec reference model; abort-prone cases in a child process",
          "stateright", "every operation history up to the bound, each followed by every terminal operation on a fresh replay, is compared with a Vec reference; drop-during-unwind explored in a child process whose death is the verdict",
          "panic=unwind; bound: history length 5 (quick) / 6 BFS + 7 DFS (thorough)", "DESIGN.md §4 C05"),
+ "C11": ("exploration", "bounded-exhaustive enumeration of literals (dense range, boundaries x spellings, float grid) against str::parse and an independent bignum literal evaluator",
+         "odometer", "every integer in [-70000,70000] and every boundary magnitude in every radix/underscore/suffix spelling, quoted and bare, alone and inside a list, for all 24 integer targets; float grid incl. f32 rounding midpoints; all bool/char/String/PathBuf forms",
+         "std str::parse is the specification of acceptance; syn's literal lexing is trusted", "DESIGN.md §4 C11"),
 }
 PENDING = {}
 props = [json.loads(l) for l in open(os.path.join(V, "properties.jsonl"))]
